@@ -19,7 +19,7 @@ import elementpath.aliases as ta
 
 from elementpath.namespaces import XML_ID, XML_LANG
 from elementpath.datatypes import AnyURI, Float, DayTimeDuration, YearMonthDuration, \
-    StringProxy, AnyAtomicType, Duration
+    StringProxy, AnyAtomicType, Duration, UntypedAtomic
 from elementpath.helpers import get_double
 from elementpath.xpath_nodes import XPathNode, ElementNode, TextNode, CommentNode, \
     ProcessingInstructionNode, DocumentNode, EtreeElementNode
@@ -306,6 +306,8 @@ def evaluate__substring(self: XPathFunction, context: ta.ContextType = None) -> 
             start = 0
         else:
             raise self.error('FORG0006', "the second argument must be xs:numeric") from None
+    except ValueError as err:
+        raise self.error('FORG0001', err) from None
     else:
         start = int(round(start)) - 1
 
@@ -321,6 +323,8 @@ def evaluate__substring(self: XPathFunction, context: ta.ContextType = None) -> 
                 length = len(item)
             else:
                 raise self.error('FORG0006', "the third argument must be xs:numeric") from None
+        except ValueError as err:
+            raise self.error('FORG0001', err) from None
 
         if math.isinf(length):
             return item[max(start, 0):]
@@ -479,6 +483,11 @@ def evaluate__ceiling_and_floor_functions(self: XPathFunction, context: ta.Conte
         return math.nan if self.parser.version == '1.0' else []
     elif isinstance(arg, XPathNode) or self.parser.compatibility_mode:
         arg = self.number_value(arg)
+    elif isinstance(arg, UntypedAtomic):
+        try:
+            arg = float(arg)
+        except ValueError as err:
+            raise self.error('FORG0001', err) from None
 
     try:
         if math.isnan(arg) or math.isinf(arg):
